@@ -436,8 +436,19 @@ func monC02(c *drv.Ctx) {
 		var vals []ref.Value
 		var encs [][]byte
 		var stream []byte
+		kind := r.Intn(2)
+		bad := map[int]bool{}
 		for k := 0; k < n; k++ {
 			var v ref.Value
+			if kind == 0 && r.Intn(7) == 0 {
+				// a value the peer garbled (second element with a negative size): the decoder refuses it, the
+				// application steps over it (it knows the length from its framing) and goes on with the same decoder
+				e := ref.EncString(ref.EncListBegin(nil, ref.STRING, 2), string(gen.Bytes(r, r.Intn(9))))
+				e = append(ref.U32(e, 0xfffffff0), gen.Bytes(r, 4)...)
+				bad[len(encs)] = true
+				vals, encs, stream = append(vals, ref.Value{T: ref.LIST}), append(encs, e), append(stream, e...)
+				continue
+			}
 			switch r.Intn(6) {
 			case 0:
 				v = ref.Value{T: ref.STRING, S: gen.Bytes(r, []int{17000, 20000, 33000, 70000}[r.Intn(4)])}
@@ -453,7 +464,6 @@ func monC02(c *drv.Ctx) {
 		if len(stream) > 60000 && sched == doubles.SchedSmall {
 			sched = doubles.SchedRandom
 		}
-		kind := r.Intn(2)
 		src := &doubles.Source{Data: stream, Len: len(stream), ErrAt: len(stream), Err: io.EOF, Sched: sched, R: r, WithData: r.Intn(2) == 0, Budget: 10*len(stream) + 100000}
 		dr := bufiox.NewDefaultReader(src)
 		cs.Desc = M{"values": n, "stream_len": len(stream), "schedule": doubles.SchedNames[sched], "skipper": []string{"SkipDecoder/DefaultReader", "BufferReader.Skip/DefaultReader"}[kind]}
@@ -464,6 +474,19 @@ func monC02(c *drv.Ctx) {
 		pos, releases := 0, 0
 		for k, e := range encs {
 			before := dr.ReadLen()
+			if bad[k] {
+				if _, err := d.Next(thrift.LIST); err == nil {
+					cs.Fail("skip-accepted-malformed", M{"skipper": "SkipDecoder/DefaultReader", "history": "values and releases"}, M{"value_index": k, "message": "a list whose second element has a negative size was accepted"})
+					return
+				}
+				if err := dr.Skip(len(e)); err != nil || dr.ReadLen()-before != len(e) {
+					cs.Fail("skip-readlen", M{"skipper": "SkipDecoder/DefaultReader", "history": "values and releases"}, M{"value_index": k, "message": fmt.Sprintf("stepping over a refused value of %d bytes: err=%v, consumed %d (the refusal must have consumed nothing)", len(e), err, dr.ReadLen()-before)})
+					return
+				}
+				pos += len(e)
+				cs.C.Obs("refused values stepped over between well-formed ones", 1)
+				continue
+			}
 			if kind == 0 {
 				out, err := d.Next(thrift.TType(vals[k].T))
 				if err != nil {
